@@ -154,6 +154,9 @@ type absInt struct {
 	sources map[string]bool // names of primitive sources seen (evidence)
 	globals map[types.Object]*aval
 	fresh   map[types.Object]bool // objects declared inside the loop under analysis (a stream created per iteration is not the loop's input)
+	// onReturn, when set, is told every return statement reached in a live state (and the depth of
+	// inlined calls at which it sits: 0 = the function execList was started on)
+	onReturn func(ret *ast.ReturnStmt, depth int)
 }
 
 type callSummary struct {
@@ -865,6 +868,9 @@ func (ai *absInt) exec(info *types.Info, fi *FuncInfo, s ast.Stmt, st *astate) *
 		if !n.dead {
 			out.returns = n
 			out.results = rs
+			if ai.onReturn != nil {
+				ai.onReturn(x, ai.depth)
+			}
 		}
 		out.normal = deadState()
 	case *ast.BranchStmt:
@@ -1108,9 +1114,20 @@ func (ai *absInt) loopLFP(info *types.Info, fi *FuncInfo, x *ast.ForStmt, entry 
 		if back != nil && !back.dead && x.Cond != nil {
 			exit = joinStates(exit, ai.refine(info, x.Cond, back, false))
 		}
-		nh := joinStates(head, back)
-		if nh.key() == head.key() {
-			break
+		// the first iteration is peeled: what leaves the loop straight from the entry state has been
+		// accounted for above, so the states at the head of the later iterations are the back-edge
+		// states only (keeps `more == true` at entry correlated with "nothing read yet")
+		var nh *astate
+		if iter == 0 {
+			if back == nil || back.dead {
+				break
+			}
+			nh = back.clone()
+		} else {
+			nh = joinStates(head, back)
+			if nh.key() == head.key() {
+				break
+			}
 		}
 		head = nh
 	}
